@@ -42,6 +42,9 @@ CHECKS={
  'C17':('runtime monitoring: codescan.Run in child workers on generated annotated programs (with intent models) and on comment-fuzzed variants; panic / validity / faithfulness monitors',
         'held on the executions observed: 151 annotation forms alone and in seeded compositions must give an error or a document that passes validate.Spec and contains every intended route, parameter, response and model; ~900-5000 fuzzed variants (18 operators, token stream preserved) must never crash the scanner. Crash sites and forms that fail today are listed in known-findings.json.',
         'intent model only asserts what docs/reference/annotations documents; fuzzed programs judged for crashes (and validity only for grammar-preserving operators)','C17'),
+ 'C19':('runtime monitoring: the real swagger binary run with JSON vs YAML output and JSON vs YAML input on documents carrying a corpus of YAML-hostile scalars in every position; reload-and-compare monitor',
+        'held on the executions observed: flatten / expand / mixin / generate spec / init spec asked for JSON and for YAML on the same input must give JSON-equal documents (YAML reloaded with go-openapi/loads) for 53 string classes, 9 number classes, numeric keys and status codes at 11+ position classes; validate / flatten / expand / mixin / diff / generate model / generate server must give identical results for the JSON and three YAML renderings of the same input.',
+        'the reference reader is go-openapi/loads (the tool\'s own loader); a YAML rendering is used only if it reads back JSON-equal; known run-to-run instabilities are tolerated by repeating (they are C07\'s)','C19'),
  'C18':('runtime monitoring: spec -> swagger generate model -> swagger generate spec -m; keyword-by-keyword comparison of original and scanned definitions',
         'held on the executions observed: every atom x position definition is pushed through both halves of the toolkit and compared on type, format (default-format equivalence), $ref, required, readOnly, bounds, lengths, pattern, enum, uniqueItems, item counts and property names at every nesting context. The (keyword, context) cells that are lost today are listed in known-findings.json; every other cell must be preserved.',
         'generator-added inline definitions are compared through; multipleOf / min,maxProperties informational (outside the statement\'s enumeration)','C18'),
